@@ -468,7 +468,12 @@ def run_loop(c, body, st, ctx):
             out += crd_facts(ctx, states[0], arr, idxs)
         return out
 
+    def tick():
+        if time.time() > getattr(ctx, "deadline", float("inf")):
+            raise NotImplementedError("time budget exhausted")
+
     while cands:
+        tick()
         sv = Solver()
         sv.set(timeout=8000)
         sv.add(*st.path)
@@ -485,6 +490,7 @@ def run_loop(c, body, st, ctx):
     rec = ctx.record
     rounds = 0
     while True:
+        tick()
         rounds += 1
         h = havoc(st, mods, ctx)
         h.path += [f(h) for _, f in cands]
@@ -498,6 +504,7 @@ def run_loop(c, body, st, ctx):
         for l in leaves:
             live = [(n, f) for n, f in cands if n not in failed]
             while live:
+                tick()
                 sv = Solver()
                 sv.set(timeout=8000)
                 sv.add(*l.path)
@@ -563,6 +570,7 @@ def verify_kernel(member, fn, kind, timeout_s=120):
     Stats.queries = 0
     ctx = Ctx(member, fn, kind)
     t0 = time.time()
+    ctx.deadline = t0 + timeout_s
     try:
         st = setup(ctx)
         run(fn.body, st, ctx)
